@@ -1265,6 +1265,32 @@ def _check_declrules(case):
                     if not reasons else "the reason to refuse it is %s" % "/".join(sorted(reasons)))))
                 break
             tainted.update(a for a, _ in locs if a not in occupied)
+    # a value re-homed into another bank of the same kind by a subclass that overrides only `bank` (the same register
+    # layout in a second vendor bank) is a declared value of that bank: in its location map, and in the way of others
+    if not out and accepted:
+        try:
+            bank2 = loc.MemoryBank(case.get("bank", 150) + 1, 0xFE, has_lock=has_lock, has_latch=has_latch)
+            base_cls, base_mls = accepted[0]
+            moved = type(base_cls.__name__ + "Moved", (base_cls,), {"bank": bank2})
+            for ml in base_mls:
+                ent = bank2.locations[ml.address]
+                if ent is None or ent.memory_value is not moved:
+                    out.append(("C11:declaration:re-homed-value-not-in-its-bank", "%s: a subclass of the accepted value %s that only "
+                                "overrides `bank` is not in the new bank's location map at %#04x (%r)"
+                                % (how_bank, base_cls.__name__, ml.address, ent)))
+                    break
+            if not out and moved not in bank2.values:
+                out.append(("C11:declaration:re-homed-value-not-in-its-bank", "%s: the re-homed value is not in bank.values" % how_bank))
+            if not out:
+                a0 = base_mls[0].address
+                try:
+                    type("OnTop", (loc.NumericValue,), {"bank": bank2, "locations": (loc.MemoryLocation(address=a0, type_=loc.MemoryType.ROM),)})
+                    out.append(("C11:declaration:overlap-accepted", "%s: a value declared on location %#04x of the bank that holds the "
+                                "re-homed value is accepted" % (how_bank, a0)))
+                except loc.MemoryLocationOverlap:
+                    pass
+        except Exception as e:  # noqa
+            out.append(("C11:declaration:raised", "%s: re-homing the first accepted value into a second bank raised %r" % (how_bank, e)))
     # the bank's location map afterwards (one root cause, one signature: not after a wrong verdict above)
     try:
         for cls, mls in ([] if out else accepted):
